@@ -304,7 +304,7 @@ def build_jobs(prop, tier):
     elif prop == "C19":
         fl = {"serde": True}
         J.append(ReaderJob("c19", plain_suites("fasta", tier, fl)[2:4] + plain_suites("fastq", tier, fl)[2:4] + history_suites("fasta", tier, fl, serde=True)[1:] + history_suites("fastq", tier, fl, serde=True)))
-    if prop in ("C01", "C02", "C04", "C05", "C06", "C17"):
+    if prop in ("C01", "C02", "C04", "C05", "C06", "C13", "C17"):
         # long regular inputs (66 000 records and more): contents, counts, positions, the final error's line and a far seek at
         # sampled indices around 2^7, 2^8, 2^15, 2^16, judged by arithmetic (TraceLong.tla)
         J.append(SimpleTvJob("long", "long", "TraceLong", tier))
@@ -508,7 +508,7 @@ class SimpleTvJob:
         mism = []
         for m in tv["mismatches"]:
             line = json.loads(vlib.shard_line(m["shard"], m["run"]))
-            small = {k: v for k, v in line.items() if k in ("ev", "head", "seq", "qual", "input", "cap", "kf", "kb", "fmt", "wrap", "recs", "n", "mode", "crlf", "bad", "count", "last", "seek")}
+            small = {k: v for k, v in line.items() if k in ("ev", "head", "seq", "qual", "input", "cap", "kf", "kb", "fmt", "wrap", "recs", "n", "mode", "crlf", "bad", "count", "last", "seek", "m", "w", "via_set", "len", "how", "first", "second", "pos1", "pos2", "rle")}
             mism.append({"props": m["props"], "why": m["why"], "kind": m["kind"], "fmt": line.get("fmt"), "op": line.get("ev"), "res_kind": None,
                          "case": {"event": small}, "job": self.name})
         sample = None
@@ -576,6 +576,7 @@ def build_jobs(prop, tier):
     if prop == "C10":
         return [McJob("wrapwriter", "WrapWriter", "WrapWriter_" + tier, ["C10"], workers=8, timeout=3600, xmx="6g"),
                 SimpleTvJob("writer", "writer", "TraceWriter", tier),
+                SimpleTvJob("long", "long", "TraceLong", tier),
                 ReaderJob("c10views", view_suites("fasta", tier))]
     if prop == "C11":
         return [SimpleTvJob("writer", "writer", "TraceWriter", tier),
